@@ -188,3 +188,13 @@ Theorem C14_trampoline_page_refuted :
   /\ setup_trampoline pm_elf d_elf = None.
 Proof. exact trampoline_page_refuted. Qed.
 Print Assumptions C14_trampoline_page_refuted.
+
+(* with proposed-fixes/C14-1.diff the failed trampoline mapping is no longer fatal (the module is
+   left unpatched) and nothing else changes *)
+Theorem C14_repaired_never_fatal : forall pm d, setup_trampoline_v true pm d <> SetupFatal.
+Proof. exact repaired_never_fatal. Qed.
+Print Assumptions C14_repaired_never_fatal.
+Theorem C14_repaired_same_when_ok : forall pm d pm1 d1,
+  setup_trampoline_v false pm d = SetupOk pm1 d1 <-> setup_trampoline_v true pm d = SetupOk pm1 d1.
+Proof. exact repaired_same_when_ok. Qed.
+Print Assumptions C14_repaired_same_when_ok.
